@@ -3,7 +3,7 @@ import OnetVerif.Shapes
 /-! Property C07 — no peer input can crash, wedge or silence a server. -/
 namespace C07
 
-theorem deliver_not_panic (s : Srv) (to : Tok) (frm : Frm) : (deliver s to frm).1 ≠ .panic := by
+theorem deliver_not_panic (s : Srv) (to : Tok) (frm : Frm) (m3 : Bool) : (deliver s to frm m3).1 ≠ .panic := by
   unfold deliver
   cases to <;> cases frm <;> simp <;> split <;> simp
 
@@ -27,14 +27,14 @@ theorem sendTree_not_panic (s : Srv) (tm : Option TM) (ro : Option Ro) : (sendTr
 makes the overlay panic. -/
 theorem c07_no_panic (s : Srv) (e : Env) : (process s e).1 ≠ .panic := by
   cases e with
-  | proto to frm b =>
+  | proto to frm b m3 =>
     simp only [process]
     split
     · simp
     · split
       · simp
       · split
-        · exact deliver_not_panic _ _ _
+        · exact deliver_not_panic _ _ _ _
         · split <;> simp
   | reqTree t v => simp only [process]; split <;> simp
   | respTree tm ro => exact sendTree_not_panic s tm ro
@@ -51,7 +51,7 @@ theorem c07_no_panic (s : Srv) (e : Env) : (process s e).1 ≠ .panic := by
   | sendRoster ro => simp only [process]; split <;> simp
   | config w => simp [process]
 
-theorem deliver_lock (s : Srv) (to : Tok) (frm : Frm) : (deliver s to frm).2.treeLock = s.treeLock := by
+theorem deliver_lock (s : Srv) (to : Tok) (frm : Frm) (m3 : Bool) : (deliver s to frm m3).2.treeLock = s.treeLock := by
   unfold deliver
   cases to <;> cases frm <;> simp <;> split <;> simp
 
@@ -77,7 +77,7 @@ theorem sendTree_lock (s : Srv) (tm : Option TM) (ro : Option Ro) :
 /-- **no lock left held**: after every envelope the pending-tree lock is free again. -/
 theorem c07_locks_released (s : Srv) (e : Env) (h : s.treeLock = 0) : (process s e).2.treeLock = 0 := by
   cases e with
-  | proto to frm b =>
+  | proto to frm b m3 =>
     simp only [process]
     split
     · exact h
@@ -117,7 +117,7 @@ theorem upd_present {f : TRef → Slot} {t x : TRef} {v : Slot} (h : f x = .pres
     · exact absurd e.symm hv
   · simp [e, h]
 
-theorem deliver_slot (s : Srv) (to : Tok) (frm : Frm) : (deliver s to frm).2.slot = s.slot := by
+theorem deliver_slot (s : Srv) (to : Tok) (frm : Frm) (m3 : Bool) : (deliver s to frm m3).2.slot = s.slot := by
   unfold deliver
   cases to <;> cases frm <;> simp <;> split <;> simp
 
@@ -164,7 +164,7 @@ theorem foldl_keeps (ro : Ro) (l : List TM) (s : Srv) (x : TRef) (h : s.slot x =
 theorem c07_present_stays (s : Srv) (e : Env) (x : TRef) (h : s.slot x = .present) :
     (process s e).2.slot x = .present := by
   cases e with
-  | proto to frm b =>
+  | proto to frm b m3 =>
     simp only [process]
     split
     · exact h
@@ -210,8 +210,8 @@ known tree is handed to its instance and reaches the handler, (2) a legitimate t
 answered, (3) a roster request is answered, and nothing panics on the way. -/
 theorem c07_still_serves (es : List Env) (s0 : Srv) (hK : s0.slot .K = .present) :
     let s := runEnvs s0 es
-    (process s (.proto (.fresh .K) .member true)).1 = .ok ∧
-    (process s (.proto (.fresh .K) .member true)).2.delivered = s.delivered + 1 ∧
+    (process s (.proto (.fresh .K) .member true true)).1 = .ok ∧
+    (process s (.proto (.fresh .K) .member true true)).2.delivered = s.delivered + 1 ∧
     (process s (.reqTree .K false)).2.replies = s.replies + 1 ∧
     (process s (.reqRoster .roK)).2.replies = s.replies + 1 := by
   have hp := c07_present_stays_run es s0 .K hK
@@ -225,9 +225,9 @@ theorem c07_still_serves (es : List Env) (s0 : Srv) (hK : s0.slot .K = .present)
 
 /-! ### the pinned code before the repairs: five negation witnesses (each replayed on the real code,
 `notes/probes/onet_overlay_c07_probe_test.go.txt`, and kept as corpus cases) -/
-theorem c07_old_nil_destination : (processOld {} (.proto .none .member true)).1 = .panic := by
+theorem c07_old_nil_destination : (processOld {} (.proto .none .member true true)).1 = .panic := by
   simp [processOld]
-theorem c07_old_nil_sender : (processOld {} (.proto (.fresh .K) .none true)).1 = .panic := by
+theorem c07_old_nil_sender : (processOld {} (.proto (.fresh .K) .none true true)).1 = .panic := by
   simp [processOld, treeOf, creates]
 theorem c07_old_empty_description :
     (processOld {} (.respTree (some ⟨.R, .roR, .emptyChildren⟩) (some ⟨.roR, true⟩))).1 = .panic := by
